@@ -32,12 +32,12 @@ import (
 
 type c36Desc struct {
 	chain, iface, conn, url string
-	method, params         string // JSON-RPC interfaces: body is built from id+method+params
-	batch                  bool
-	addon                  string
-	exts                   []string
-	meta                   []pairingtypes.Metadata
-	block                  int64
+	method, params          string // JSON-RPC interfaces: body is built from id+method+params
+	batch                   bool
+	addon                   string
+	exts                    []string
+	meta                    []pairingtypes.Metadata
+	block                   int64
 	// dimensions the statement says are ignored
 	id         string
 	salt       []byte
